@@ -14,6 +14,7 @@ CHECK = {
              'full walker run whenever the size is within 2 of a power of two 2^8..2^17 (the size is driven back and forth across '
              'each), at the top and at the end; plus seeded random interleavings with fill/drain/hover phases on pools of 4-1024 elements (every sixth history '
              'fills 500-1024 elements first) and 1..pool priorities; popped elements get their node overwritten before re-use. '
+             'Configuration sets in which two heaps differ in exactly ONE of comparator function / priv / node member (e.g. a max-heap and a min-heap sharing one comparator that takes its direction from priv): own closure scopes and 240 (thorough 1920) swap-then-use cases per state class; every second case runs with an allocator that refuses every request. '
              'After every call: size == reference count; get/pop return NULL iff the reference '
              'multiset is empty, otherwise the address of an element that was pushed and is still held whose priority equals the '
              'reference maximum; pop removes exactly that element; and a walker over the header-visible links demands that the '
